@@ -37,7 +37,7 @@ def fix_words(t, rnd):
         for _, m in t.members:
             fix_words(m, rnd)
     elif t.kind == "map":
-        t.ksrc = rnd.choice(["uint256", "int128", "bytes32"])
+        t.ksrc = rnd.choice(["uint256", "int128", "bytes32", "Bytes[5]", "String[7]"])
         fix_words(t.v, rnd)
     return t
 
@@ -76,6 +76,13 @@ def key_literal(ksrc, rnd):
     if ksrc == "bytes32":
         v = rnd.randrange(1, 2**256)
         return "0x" + "%064x" % v, v
+    if ksrc.startswith("Bytes[") or ksrc.startswith("String["):
+        # byte-string keys are hashed first: slot = keccak(slot || keccak(key))
+        from vyper.utils import keccak256
+        n = int(ksrc[ksrc.index("[") + 1:-1])
+        body = "".join(rnd.choice("abcdefgh") for _ in range(rnd.randint(0, n)))
+        lit = ('b"%s"' if ksrc.startswith("Bytes") else '"%s"') % body
+        return lit, int.from_bytes(keccak256(body.encode()), "big")
     raise ValueError(ksrc)
 
 
